@@ -896,4 +896,666 @@ theorem applySvc_records (prevSvc : AMap SvcKey SvcInfo) (hint : AMap SvcKey Nat
   · rename_i id _; obtain ⟨v, h⟩ := key b id; exact ⟨id, v, h⟩
   · obtain ⟨v, h⟩ := key _ ((hint.get skey).getD b.nextId); exact ⟨_, v, h⟩
 
+/-! ## Derived frontends -/
+
+/-- a frontend `Set` is never lost from the trace. -/
+theorem memw_pres (w : FKey × FVal) : Pres (fun b => w ∈ b.fwrites) := by
+  constructor
+  · intro b svc id cc l f h; exact List.mem_cons_of_mem _ h
+  · intro b svc id cc l f h
+    unfold C42.writeLBSrc
+    simp only []
+    split
+    · exact List.mem_append_right _ h
+    · exact List.mem_cons_of_mem _ (List.mem_append_right _ h)
+  · intro b skey id eps h; exact h
+  · intro b _ _ _ _ h; exact h
+
+/-- a derived frontend value "lists the same block" as the recorded primary `svcInfo`. -/
+def Same (info : SvcInfo) (v : FVal) : Prop := v.id = info.id ∧ v.count = info.count ∧ v.lcl = info.lcl
+
+/-- what one `applyDerived` does, given the primary's `svcInfo`. -/
+theorem applyDerived_spec (b : Bld) (sname : String) (t : DType) (sinfo : Svc) (info : SvcInfo)
+    (hq : b.newSvc.get ⟨sname, .prim⟩ = some info) :
+    (applyDerived b sname t sinfo).newSvc.get ⟨sname, .prim⟩ = some info ∧
+    (((t = .lb ∨ t = .ext) ∧ sinfo.srcRanges ≠ []) →
+      ∀ k ∈ srcKeys sinfo, ∃ v, (k, v) ∈ (applyDerived b sname t sinfo).fwrites ∧ Same info v) ∧
+    (¬ ((t = .lb ∨ t = .ext) ∧ sinfo.srcRanges ≠ []) →
+      ∃ v, (zeroKey sinfo, v) ∈ (applyDerived b sname t sinfo).fwrites ∧ Same info v) := by
+  unfold C42.applyDerived
+  simp only [hq]
+  have hkey : (⟨sname, .prim⟩ : SvcKey) ≠ ⟨sname, t.extra sinfo.clusterIP⟩ := by
+    cases t <;> simp [DType.extra]
+  split
+  · rename_i hc
+    have hc' : (t = .lb ∨ t = .ext) ∧ sinfo.srcRanges ≠ [] := by
+      simp only [Bool.and_eq_true, Bool.or_eq_true, decide_eq_true_eq, Bool.not_eq_true',
+        List.isEmpty_eq_false_iff, ne_eq] at hc
+      exact hc
+    refine ⟨?_, ?_, fun h => absurd hc' h⟩
+    · rw [AMap.get_set_ne _ _ hkey]
+      unfold C42.writeLBSrc; simp only []; split <;> exact hq
+    · intro _ k hk
+      refine ⟨⟨info.id, info.count, info.lcl, affOf sinfo, derivedFlags t sinfo⟩, ?_, rfl, rfl, rfl⟩
+      unfold C42.writeLBSrc
+      simp only []
+      have hm : (k, (⟨info.id, info.count, info.lcl, affOf sinfo, derivedFlags t sinfo⟩ : FVal)) ∈
+          ((srcKeys sinfo).map (fun k => (k, (⟨info.id, info.count, info.lcl, affOf sinfo, derivedFlags t sinfo⟩ : FVal)))).reverse ++ b.fwrites :=
+        List.mem_append_left _ (List.mem_reverse.2 (List.mem_map.2 ⟨k, hk, rfl⟩))
+      split
+      · exact hm
+      · exact List.mem_cons_of_mem _ hm
+  · rename_i hc
+    have hc' : ¬ ((t = .lb ∨ t = .ext) ∧ sinfo.srcRanges ≠ []) := by
+      intro h; apply hc
+      simp only [Bool.and_eq_true, Bool.or_eq_true, decide_eq_true_eq, Bool.not_eq_true',
+        List.isEmpty_eq_false_iff, ne_eq]
+      exact h
+    refine ⟨?_, fun h => absurd h hc', fun _ => ?_⟩
+    · rw [AMap.get_set_ne _ _ hkey]
+      unfold C42.writeSvc; exact hq
+    · unfold C42.writeSvc
+      exact ⟨_, List.mem_cons_self .., rfl, rfl, rfl⟩
+
+theorem foldl_mono_w {α : Type} (f : Bld → α → Bld) (hf : ∀ (w : FKey × FVal) b a, w ∈ b.fwrites → w ∈ (f b a).fwrites)
+    (w : FKey × FVal) (l : List α) (b : Bld) (h : w ∈ b.fwrites) : w ∈ (l.foldl f b).fwrites := by
+  induction l generalizing b with
+  | nil => exact h
+  | cons x rest ih => exact ih _ (hf w b x h)
+
+/-- records made by a fold of derived steps: every element of the list gets its frontend `Set`. -/
+theorem derived_fold_records {α : Type} (sname : String) (info : SvcInfo) (f : Bld → α → Bld) (keys : α → List FKey)
+    (hf : ∀ (w : FKey × FVal) b a, w ∈ b.fwrites → w ∈ (f b a).fwrites)
+    (hstep : ∀ b a, b.newSvc.get ⟨sname, .prim⟩ = some info →
+      (f b a).newSvc.get ⟨sname, .prim⟩ = some info ∧ ∀ k ∈ keys a, ∃ v, (k, v) ∈ (f b a).fwrites ∧ Same info v)
+    (l : List α) (b : Bld) (hq : b.newSvc.get ⟨sname, .prim⟩ = some info) :
+    (l.foldl f b).newSvc.get ⟨sname, .prim⟩ = some info ∧
+      ∀ a ∈ l, ∀ k ∈ keys a, ∃ v, (k, v) ∈ (l.foldl f b).fwrites ∧ Same info v := by
+  induction l generalizing b with
+  | nil => exact ⟨hq, fun _ h => by simp at h⟩
+  | cons x rest ih =>
+    simp only [List.foldl_cons]
+    obtain ⟨hq1, hr1⟩ := hstep b x hq
+    obtain ⟨hq2, hr2⟩ := ih _ hq1
+    refine ⟨hq2, ?_⟩
+    intro a ha k hk
+    rcases List.mem_cons.1 ha with rfl | ha
+    · obtain ⟨v1, hm1, hs1⟩ := hr1 k hk
+      exact ⟨v1, foldl_mono_w f hf _ rest _ hm1, hs1⟩
+    · exact hr2 a ha k hk
+
+theorem derivedStep_keys (sname : String) (info : SvcInfo) (t : DType) (sinfo : Svc) (b : Bld)
+    (hq : b.newSvc.get ⟨sname, .prim⟩ = some info) :
+    (applyDerived b sname t sinfo).newSvc.get ⟨sname, .prim⟩ = some info ∧
+    ∀ k ∈ (if (t = .lb ∨ t = .ext) ∧ sinfo.srcRanges ≠ [] then srcKeys sinfo else [zeroKey sinfo]),
+      ∃ v, (k, v) ∈ (applyDerived b sname t sinfo).fwrites ∧ Same info v := by
+  obtain ⟨h1, h2, h3⟩ := applyDerived_spec b sname t sinfo info hq
+  refine ⟨h1, ?_⟩
+  intro k hk
+  split at hk
+  · rename_i hc; exact h2 hc k hk
+  · rename_i hc
+    simp only [List.mem_singleton] at hk
+    subst hk; exact h3 hc
+
+def lbFold (sname : String) (svc : Svc) (b : Bld) : Bld :=
+  svc.lbVIPs.foldl (fun b ip => C42.applyDerived b sname .lb { svc with clusterIP := ip }) b
+def extFold (sname : String) (svc : Svc) (b : Bld) : Bld :=
+  svc.extIPs.foldl (fun b ip => C42.applyDerived b sname .ext { svc with clusterIP := ip }) b
+def npStep (sname : String) (svc : Svc) (b : Bld) (ip : Nat) : Bld :=
+  if (svc.intLocal && ip == podNPIP) = true then b
+  else C42.applyDerived b sname .np { svc with clusterIP := ip, port := svc.nodePort }
+def npFold (s : Syncer) (sname : String) (svc : Svc) (b : Bld) : Bld := s.npIPs.foldl (npStep sname svc) b
+def nprFold (s : Syncer) (hint : AMap SvcKey Nat) (sname : String) (svc : Svc) (eps : List Ep) (b : Bld) : Bld :=
+  (expandNodePorts s.routes eps).foldl (fun b g =>
+    C42.applySvc s.prevSvc hint b ⟨sname, .npRemote g.1⟩ { svc with clusterIP := g.1, port := svc.nodePort } g.2) b
+
+theorem applyRest_eq (s : Syncer) (hint : AMap SvcKey Nat) (b : Bld) (sname : String) (svc : Svc) (eps : List Ep) :
+    applyRest s hint b sname svc eps =
+      if (svc.nodePort != 0) = true then
+        (if svc.intLocal = true then nprFold s hint sname svc eps (npFold s sname svc (extFold sname svc (lbFold sname svc b)))
+         else npFold s sname svc (extFold sname svc (lbFold sname svc b)))
+      else extFold sname svc (lbFold sname svc b) := rfl
+
+theorem npStep_mono (sname : String) (svc : Svc) (w : FKey × FVal) (b : Bld) (ip : Nat) (h : w ∈ b.fwrites) :
+    w ∈ (npStep sname svc b ip).fwrites := by
+  unfold npStep; split
+  · exact h
+  · exact (memw_pres w).applyDerived h _ _ _
+
+theorem npFold_mono (s : Syncer) (sname : String) (svc : Svc) (w : FKey × FVal) (b : Bld) (h : w ∈ b.fwrites) :
+    w ∈ (npFold s sname svc b).fwrites :=
+  foldl_mono_w _ (fun w b a h => npStep_mono sname svc w b a h) w _ _ h
+
+theorem nprFold_mono (s : Syncer) (hint : AMap SvcKey Nat) (sname : String) (svc : Svc) (eps : List Ep)
+    (w : FKey × FVal) (b : Bld) (h : w ∈ b.fwrites) : w ∈ (nprFold s hint sname svc eps b).fwrites :=
+  foldl_mono_w _ (fun w b g h => (memw_pres w).applySvc h _ _ _ _ _) w _ _ h
+
+theorem extFold_mono (sname : String) (svc : Svc) (w : FKey × FVal) (b : Bld) (h : w ∈ b.fwrites) :
+    w ∈ (extFold sname svc b).fwrites :=
+  foldl_mono_w _ (fun w b a h => (memw_pres w).applyDerived h _ _ _) w _ _ h
+
+/-- a record present after the external-IP fold survives the rest of `applyRest`. -/
+theorem applyRest_mono_from_ext (s : Syncer) (hint : AMap SvcKey Nat) (b : Bld) (sname : String) (svc : Svc) (eps : List Ep)
+    (w : FKey × FVal) (h : w ∈ (extFold sname svc (lbFold sname svc b)).fwrites) :
+    w ∈ (applyRest s hint b sname svc eps).fwrites := by
+  rw [applyRest_eq]
+  split
+  · split
+    · exact nprFold_mono _ _ _ _ _ _ _ (npFold_mono _ _ _ _ _ h)
+    · exact npFold_mono _ _ _ _ _ h
+  · exact h
+
+def ipKeys (svc : Svc) (ip : Nat) : List FKey :=
+  if svc.srcRanges = [] then [zeroKey { svc with clusterIP := ip }] else srcKeys { svc with clusterIP := ip }
+
+theorem derivedStep_ipKeys (sname : String) (info : SvcInfo) (t : DType) (ht : t = .lb ∨ t = .ext) (svc : Svc) (ip : Nat) (b : Bld)
+    (hq : b.newSvc.get ⟨sname, .prim⟩ = some info) :
+    (applyDerived b sname t { svc with clusterIP := ip }).newSvc.get ⟨sname, .prim⟩ = some info ∧
+    ∀ k ∈ ipKeys svc ip, ∃ v, (k, v) ∈ (applyDerived b sname t { svc with clusterIP := ip }).fwrites ∧ Same info v := by
+  obtain ⟨h1, h2⟩ := derivedStep_keys sname info t { svc with clusterIP := ip } b hq
+  refine ⟨h1, fun k hk => h2 k ?_⟩
+  unfold ipKeys at hk
+  by_cases hs : svc.srcRanges = []
+  · simp only [hs, if_true] at hk
+    simp only [hs, ne_eq, not_true_eq_false, and_false, if_false]
+    exact hk
+  · simp only [hs, if_false] at hk
+    simp only [ht, hs, ne_eq, not_false_eq_true, and_self, if_true]
+    exact hk
+
+/-- the frontend keys of a service that must list the same block as its cluster-IP frontend. -/
+def derivedKeys (s : Syncer) (svc : Svc) : List FKey :=
+  (svc.lbVIPs ++ svc.extIPs).flatMap (ipKeys svc) ++
+  (if svc.nodePort != 0 then
+    (s.npIPs.filter (fun ip => !(svc.intLocal && ip == podNPIP))).map
+      (fun ip => zeroKey { svc with clusterIP := ip, port := svc.nodePort })
+   else [])
+
+/-- **every derived frontend of a service is `Set` with the ID, count and local count recorded for its
+cluster-IP frontend.** -/
+theorem applyRest_records (s : Syncer) (hint : AMap SvcKey Nat) (b : Bld) (sname : String) (svc : Svc) (eps : List Ep)
+    (info : SvcInfo) (hq : b.newSvc.get ⟨sname, .prim⟩ = some info) :
+    ∀ k ∈ derivedKeys s svc, ∃ v, (k, v) ∈ (applyRest s hint b sname svc eps).fwrites ∧ Same info v := by
+  have hLB := derived_fold_records sname info (fun b ip => C42.applyDerived b sname .lb { svc with clusterIP := ip })
+    (ipKeys svc) (fun w b a h => (memw_pres w).applyDerived h _ _ _)
+    (fun b a hq => derivedStep_ipKeys sname info .lb (Or.inl rfl) svc a b hq) svc.lbVIPs b hq
+  have hEXT := derived_fold_records sname info (fun b ip => C42.applyDerived b sname .ext { svc with clusterIP := ip })
+    (ipKeys svc) (fun w b a h => (memw_pres w).applyDerived h _ _ _)
+    (fun b a hq => derivedStep_ipKeys sname info .ext (Or.inr rfl) svc a b hq) svc.extIPs _ hLB.1
+  have hNP := derived_fold_records sname info (npStep sname svc)
+    (fun ip => if (svc.intLocal && ip == podNPIP) = true then [] else [zeroKey { svc with clusterIP := ip, port := svc.nodePort }])
+    (fun w b a h => npStep_mono sname svc w b a h)
+    (fun b a hq => by
+      unfold npStep
+      split
+      · exact ⟨hq, fun k hk => by simp at hk⟩
+      · obtain ⟨h1, h2⟩ := derivedStep_keys sname info .np { svc with clusterIP := a, port := svc.nodePort } b hq
+        refine ⟨h1, fun k hk => h2 k ?_⟩
+        simpa using hk) s.npIPs _ hEXT.1
+  intro k hk
+  unfold derivedKeys at hk
+  rcases List.mem_append.1 hk with hk | hk
+  · obtain ⟨ip, hip, hkk⟩ := List.mem_flatMap.1 hk
+    rcases List.mem_append.1 hip with hip | hip
+    · obtain ⟨v, hm, hs⟩ := hLB.2 ip hip k hkk
+      exact ⟨v, applyRest_mono_from_ext _ _ _ _ _ _ _ (extFold_mono _ _ _ _ hm), hs⟩
+    · obtain ⟨v, hm, hs⟩ := hEXT.2 ip hip k hkk
+      exact ⟨v, applyRest_mono_from_ext _ _ _ _ _ _ _ hm, hs⟩
+  · split at hk
+    · rename_i hnz
+      obtain ⟨ip, hip, rfl⟩ := List.mem_map.1 hk
+      obtain ⟨hin, hcond⟩ := List.mem_filter.1 hip
+      obtain ⟨v, hm, hs⟩ := hNP.2 ip hin (zeroKey { svc with clusterIP := ip, port := svc.nodePort }) (by
+        simp only [Bool.not_eq_true'] at hcond
+        simp [hcond])
+      refine ⟨v, ?_, hs⟩
+      rw [applyRest_eq, if_pos hnz]
+      split
+      · exact nprFold_mono _ _ _ _ _ _ _ hm
+      · exact hm
+    · simp at hk
+
+/-- what the primary `applySvc` of a service records, including its `svcInfo`. -/
+theorem applySvc_records3 (prevSvc : AMap SvcKey SvcInfo) (hint : AMap SvcKey Nat) (b : Bld) (skey : SvcKey) (svc : Svc)
+    (eps : List Ep) :
+    ∃ id v, (skey, id, eps) ∈ (applySvc prevSvc hint b skey svc eps).calls ∧
+      (zeroKey svc, v) ∈ (applySvc prevSvc hint b skey svc eps).fwrites ∧
+      v.id = id ∧ v.count = (readyOrdered eps).length ∧ v.lcl = localReady eps ∧ v.aff = affOf svc ∧
+      (applySvc prevSvc hint b skey svc eps).newSvc.get skey =
+        some ⟨id, (readyOrdered eps).length, localReady eps, svc⟩ := by
+  have key : ∀ (b : Bld) id, ∃ v, (skey, id, eps) ∈ (applySvcWith b skey svc id eps).calls ∧
+      (zeroKey svc, v) ∈ (applySvcWith b skey svc id eps).fwrites ∧
+      v.id = id ∧ v.count = (readyOrdered eps).length ∧ v.lcl = localReady eps ∧ v.aff = affOf svc ∧
+      (applySvcWith b skey svc id eps).newSvc.get skey = some ⟨id, (readyOrdered eps).length, localReady eps, svc⟩ := by
+    intro b id
+    unfold C42.applySvcWith C42.updateService C42.writeSvc
+    cases skey.extra <;>
+      exact ⟨_, List.mem_cons_self .., List.mem_cons_self .., rfl, rfl, rfl, rfl, AMap.get_set_self _ _ _⟩
+  unfold C42.applySvc
+  split
+  · rename_i id _; obtain ⟨v, h⟩ := key b id; exact ⟨id, v, h⟩
+  · obtain ⟨v, h⟩ := key _ ((hint.get skey).getD b.nextId); exact ⟨_, v, h⟩
+
+/-! ## The NAT IDs used by one sync are pairwise distinct -/
+
+theorem groupAdd_keys (g : List (Nat × List Ep)) (node : Nat) (ep : Ep) :
+    (groupAdd g node ep).map (·.1) = if node ∈ g.map (·.1) then g.map (·.1) else g.map (·.1) ++ [node] := by
+  induction g with
+  | nil => simp [groupAdd]
+  | cons x rest ih =>
+    obtain ⟨n, l⟩ := x
+    simp only [groupAdd]
+    by_cases h : n = node
+    · subst h; simp
+    · simp only [h, if_false, List.map_cons, ih, List.mem_cons]
+      have h' : ¬ node = n := fun e => h e.symm
+      by_cases h2 : node ∈ rest.map (·.1)
+      · simp [h2, h']
+      · simp [h2, h']
+
+theorem groupAdd_nodup (g : List (Nat × List Ep)) (node : Nat) (ep : Ep) (h : (g.map (·.1)).Nodup) :
+    ((groupAdd g node ep).map (·.1)).Nodup := by
+  rw [groupAdd_keys]
+  split
+  · exact h
+  · rename_i hn
+    rw [List.nodup_append]
+    refine ⟨h, by simp, ?_⟩
+    intro a ha b hb
+    simp only [List.mem_singleton] at hb
+    subst hb
+    intro e; subst e; exact hn ha
+
+theorem expandNodePorts_nodup (routes : AMap Nat Route) (eps : List Ep) :
+    ((expandNodePorts routes eps).map (·.1)).Nodup := by
+  unfold expandNodePorts
+  have : ∀ (l : List Ep) (g : List (Nat × List Ep)), (g.map (·.1)).Nodup →
+      ((l.foldl (fun g ep => match routes.get ep.ip with
+        | none => g
+        | some rt => if rt.workload && !rt.isLocal then groupAdd g rt.nextHop ep else g) g).map (·.1)).Nodup := by
+    intro l
+    induction l with
+    | nil => intro g h; exact h
+    | cons ep rest ih =>
+      intro g h
+      simp only [List.foldl_cons]
+      apply ih
+      split
+      · exact h
+      · split
+        · exact groupAdd_nodup _ _ _ h
+        · exact h
+  exact this eps [] (by simp)
+
+/-- the previous-sync bookkeeping the ID choice relies on: recorded IDs are below `nextSvcID`, and two
+different keys that own a backend block (cluster-IP key, per-node NodePortRemote key) never share one. -/
+def Owner (sk : SvcKey) : Prop := sk.extra = .prim ∨ ∃ n, sk.extra = .npRemote n
+
+structure WFPrev (prev : AMap SvcKey SvcInfo) (n0 : Nat) : Prop where
+  lt : ∀ sk info, Owner sk → prev.get sk = some info → info.id < n0
+  inj : ∀ sk1 sk2 i1 i2, Owner sk1 → Owner sk2 → prev.get sk1 = some i1 → prev.get sk2 = some i2 →
+    sk1 ≠ sk2 → i1.id ≠ i2.id
+
+def FreshGood (n0 : Nat) (b : Bld) : Prop := b.fresh.Nodup ∧ ∀ i ∈ b.fresh, n0 ≤ i
+
+def Classified (prev : AMap SvcKey SvcInfo) (b : Bld) (c : SvcKey × Nat × List Ep) : Prop :=
+  (∃ info, prev.get c.1 = some info ∧ info.id = c.2.1) ∨ c.2.1 ∈ b.fresh
+
+structure IdInv (prev : AMap SvcKey SvcInfo) (n0 : Nat) (b : Bld) : Prop where
+  keys : (b.calls.map (·.1)).Nodup
+  owner : ∀ c ∈ b.calls, Owner c.1
+  cls : ∀ c ∈ b.calls, Classified prev b c
+  ids : FreshGood n0 b → (b.calls.map (·.2.1)).Nodup
+
+theorem applySvcWith_calls (b : Bld) (skey : SvcKey) (svc : Svc) (id : Nat) (eps : List Ep) :
+    (applySvcWith b skey svc id eps).calls = (skey, id, eps) :: b.calls ∧
+    (applySvcWith b skey svc id eps).fresh = b.fresh := by
+  unfold applySvcWith updateService writeSvc
+  cases skey.extra <;> exact ⟨rfl, rfl⟩
+
+theorem applyDerived_calls (b : Bld) (sname : String) (t : DType) (sinfo : Svc) :
+    (applyDerived b sname t sinfo).calls = b.calls ∧ (applyDerived b sname t sinfo).fresh = b.fresh := by
+  unfold applyDerived
+  split
+  · exact ⟨rfl, rfl⟩
+  · simp only []
+    split
+    · unfold writeLBSrc; simp only []; split <;> exact ⟨rfl, rfl⟩
+    · unfold writeSvc; exact ⟨rfl, rfl⟩
+
+theorem keepId_some {prev : AMap SvcKey SvcInfo} {skey : SvcKey} {svc : Svc} {id : Nat}
+    (h : keepId prev skey svc = some id) : ∃ info, prev.get skey = some info ∧ info.id = id := by
+  unfold keepId at h
+  split at h
+  · rename_i old ho
+    split at h
+    · simp at h; exact ⟨old, ho, h⟩
+    · cases h
+  · cases h
+
+/-- one `applySvc` for an owner key not used before in this sync keeps the invariant. -/
+theorem IdInv.applySvc {prev : AMap SvcKey SvcInfo} {n0 : Nat} (wf : WFPrev prev n0) {b : Bld}
+    (inv : IdInv prev n0 b) (hint : AMap SvcKey Nat) (skey : SvcKey) (svc : Svc) (eps : List Ep)
+    (ho : Owner skey) (hnew : skey ∉ b.calls.map (·.1)) :
+    IdInv prev n0 (applySvc prev hint b skey svc eps) := by
+  unfold C42.applySvc
+  split
+  · -- the previous ID is kept
+    rename_i id hk
+    obtain ⟨info, hi, hid⟩ := keepId_some hk
+    obtain ⟨hc, hf⟩ := applySvcWith_calls b skey svc id eps
+    have hcls : ∀ c ∈ b.calls, Classified prev (applySvcWith b skey svc id eps) c := by
+      intro c hc'
+      rcases inv.cls c hc' with h | h
+      · exact Or.inl h
+      · exact Or.inr (by rw [hf]; exact h)
+    refine ⟨by rw [hc]; exact List.nodup_cons.2 ⟨hnew, inv.keys⟩, ?_, ?_, ?_⟩
+    · intro c hm; rw [hc] at hm
+      rcases List.mem_cons.1 hm with rfl | hm
+      · exact ho
+      · exact inv.owner c hm
+    · intro c hm; rw [hc] at hm
+      rcases List.mem_cons.1 hm with rfl | hm
+      · exact Or.inl ⟨info, hi, hid⟩
+      · exact hcls c hm
+    · intro hg
+      have hg' : FreshGood n0 b := by unfold FreshGood at *; rw [hf] at hg; exact hg
+      rw [hc]
+      simp only [List.map_cons, List.nodup_cons]
+      refine ⟨?_, inv.ids hg'⟩
+      intro hmem
+      obtain ⟨c, hcm, hce⟩ := List.mem_map.1 hmem
+      rcases inv.cls c hcm with ⟨info', hi', hid'⟩ | hfr
+      · have hne : c.1 ≠ skey := fun e => hnew (e ▸ List.mem_map_of_mem hcm)
+        exact wf.inj c.1 skey info' info (inv.owner c hcm) ho hi' hi hne (by rw [hid', hid]; exact hce)
+      · have := hg'.2 _ hfr
+        have := wf.lt skey info ho hi
+        omega
+  · -- a fresh ID
+    obtain ⟨hc, hf⟩ := applySvcWith_calls
+      { b with nextId := b.nextId + 1, fresh := (hint.get skey).getD b.nextId :: b.fresh } skey svc
+      ((hint.get skey).getD b.nextId) eps
+    simp only at hc hf
+    refine ⟨by rw [hc]; exact List.nodup_cons.2 ⟨hnew, inv.keys⟩, ?_, ?_, ?_⟩
+    · intro c hm; rw [hc] at hm
+      rcases List.mem_cons.1 hm with rfl | hm
+      · exact ho
+      · exact inv.owner c hm
+    · intro c hm; rw [hc] at hm
+      rcases List.mem_cons.1 hm with rfl | hm
+      · exact Or.inr (by rw [hf]; exact List.mem_cons_self ..)
+      · rcases inv.cls c hm with h | h
+        · exact Or.inl h
+        · exact Or.inr (by rw [hf]; exact List.mem_cons_of_mem _ h)
+    · intro hg
+      unfold FreshGood at hg
+      rw [hf] at hg
+      have hnd := hg.1
+      simp only [List.nodup_cons] at hnd
+      have hg' : FreshGood n0 b := ⟨hnd.2, fun i hi => hg.2 i (List.mem_cons_of_mem _ hi)⟩
+      rw [hc]
+      simp only [List.map_cons, List.nodup_cons]
+      refine ⟨?_, inv.ids hg'⟩
+      intro hmem
+      obtain ⟨c, hcm, hce⟩ := List.mem_map.1 hmem
+      rcases inv.cls c hcm with ⟨info', hi', hid'⟩ | hfr
+      · have h1 := wf.lt c.1 info' (inv.owner c hcm) hi'
+        have h2 := hg.2 _ (List.mem_cons_self ..)
+        omega
+      · rw [hce] at hfr
+        exact hnd.1 hfr
+
+theorem applySvc_calls (prev : AMap SvcKey SvcInfo) (hint : AMap SvcKey Nat) (b : Bld) (skey : SvcKey) (svc : Svc) (eps : List Ep) :
+    ∃ id, (applySvc prev hint b skey svc eps).calls = (skey, id, eps) :: b.calls := by
+  unfold C42.applySvc
+  split
+  · exact ⟨_, (applySvcWith_calls _ _ _ _ _).1⟩
+  · exact ⟨_, (applySvcWith_calls _ _ _ _ _).1⟩
+
+theorem IdInv.of_eq {prev : AMap SvcKey SvcInfo} {n0 : Nat} {b b' : Bld} (hc : b'.calls = b.calls) (hf : b'.fresh = b.fresh)
+    (inv : IdInv prev n0 b) : IdInv prev n0 b' := by
+  refine ⟨by rw [hc]; exact inv.keys, by rw [hc]; exact inv.owner, ?_, ?_⟩
+  · intro c hm; rw [hc] at hm
+    rcases inv.cls c hm with h | h
+    · exact Or.inl h
+    · exact Or.inr (by rw [hf]; exact h)
+  · intro hg; rw [hc]; exact inv.ids (by unfold FreshGood at *; rw [hf] at hg; exact hg)
+
+theorem foldl_calls_eq {α : Type} (f : Bld → α → Bld) (hf : ∀ b a, (f b a).calls = b.calls ∧ (f b a).fresh = b.fresh)
+    (l : List α) (b : Bld) : (l.foldl f b).calls = b.calls ∧ (l.foldl f b).fresh = b.fresh := by
+  induction l generalizing b with
+  | nil => exact ⟨rfl, rfl⟩
+  | cons x rest ih =>
+    simp only [List.foldl_cons]
+    obtain ⟨h1, h2⟩ := ih (f b x)
+    obtain ⟨h3, h4⟩ := hf b x
+    exact ⟨h1.trans h3, h2.trans h4⟩
+
+theorem npStep_calls (sname : String) (svc : Svc) (b : Bld) (ip : Nat) :
+    (npStep sname svc b ip).calls = b.calls ∧ (npStep sname svc b ip).fresh = b.fresh := by
+  unfold npStep; split
+  · exact ⟨rfl, rfl⟩
+  · exact applyDerived_calls _ _ _ _
+
+/-- the derived folds of a service do not call `updateService`. -/
+theorem derivedFolds_calls (s : Syncer) (sname : String) (svc : Svc) (b : Bld) :
+    (npFold s sname svc (extFold sname svc (lbFold sname svc b))).calls = b.calls ∧
+    (npFold s sname svc (extFold sname svc (lbFold sname svc b))).fresh = b.fresh ∧
+    (extFold sname svc (lbFold sname svc b)).calls = b.calls ∧
+    (extFold sname svc (lbFold sname svc b)).fresh = b.fresh := by
+  have h1 := foldl_calls_eq (fun b ip => C42.applyDerived b sname .lb { svc with clusterIP := ip })
+    (fun b a => applyDerived_calls _ _ _ _) svc.lbVIPs b
+  have h2 := foldl_calls_eq (fun b ip => C42.applyDerived b sname .ext { svc with clusterIP := ip })
+    (fun b a => applyDerived_calls _ _ _ _) svc.extIPs (lbFold sname svc b)
+  have h3 := foldl_calls_eq (npStep sname svc) (fun b a => npStep_calls sname svc b a) s.npIPs
+    (extFold sname svc (lbFold sname svc b))
+  exact ⟨h3.1.trans (h2.1.trans h1.1), h3.2.trans (h2.2.trans h1.2), h2.1.trans h1.1, h2.2.trans h1.2⟩
+
+/-- the per-node NodePortRemote expansion: every node once, so every key is new. -/
+theorem nprFold_inv {prev : AMap SvcKey SvcInfo} {n0 : Nat} (wf : WFPrev prev n0) (hint : AMap SvcKey Nat)
+    (sname : String) (svc : Svc) (names : List String) (hsn : sname ∈ names)
+    (l : List (Nat × List Ep)) (hnd : (l.map (·.1)).Nodup) (b : Bld)
+    (inv : IdInv prev n0 b) (hn : ∀ c ∈ b.calls, c.1.sname ∈ names)
+    (hfree : ∀ c ∈ b.calls, c.1.sname = sname → ∀ n, c.1.extra = .npRemote n → n ∉ l.map (·.1)) :
+    IdInv prev n0 (l.foldl (fun b g =>
+      C42.applySvc prev hint b ⟨sname, .npRemote g.1⟩ { svc with clusterIP := g.1, port := svc.nodePort } g.2) b) ∧
+    ∀ c ∈ (l.foldl (fun b g =>
+      C42.applySvc prev hint b ⟨sname, .npRemote g.1⟩ { svc with clusterIP := g.1, port := svc.nodePort } g.2) b).calls,
+      c.1.sname ∈ names := by
+  induction l generalizing b with
+  | nil => exact ⟨inv, hn⟩
+  | cons g rest ih =>
+    simp only [List.foldl_cons]
+    simp only [List.map_cons, List.nodup_cons] at hnd
+    have hnew : (⟨sname, .npRemote g.1⟩ : SvcKey) ∉ b.calls.map (·.1) := by
+      intro hm
+      obtain ⟨c, hc, he⟩ := List.mem_map.1 hm
+      exact hfree c hc (by rw [he]) g.1 (by rw [he]) (by simp)
+    have inv1 := IdInv.applySvc wf inv hint ⟨sname, .npRemote g.1⟩ { svc with clusterIP := g.1, port := svc.nodePort } g.2
+      (Or.inr ⟨g.1, rfl⟩) hnew
+    obtain ⟨id, hcalls⟩ := applySvc_calls prev hint b ⟨sname, .npRemote g.1⟩ { svc with clusterIP := g.1, port := svc.nodePort } g.2
+    refine ih hnd.2 _ inv1 ?_ ?_
+    · intro c hc; rw [hcalls] at hc
+      rcases List.mem_cons.1 hc with rfl | hc
+      · exact hsn
+      · exact hn c hc
+    · intro c hc hs n he; rw [hcalls] at hc
+      rcases List.mem_cons.1 hc with rfl | hc
+      · simp only at he; cases he; exact hnd.1
+      · intro hmem; exact hfree c hc hs n he (List.mem_cons_of_mem _ hmem)
+
+/-- one service of the loop. -/
+theorem IdInv.applyService {prev : AMap SvcKey SvcInfo} {n0 : Nat} (s : Syncer) (hs : s.prevSvc = prev)
+    (wf : WFPrev prev n0) (st : KState) (hint : AMap SvcKey Nat) {b : Bld} (inv : IdInv prev n0 b)
+    (names : List String) (hn : ∀ c ∈ b.calls, c.1.sname ∈ names) (sname : String) (svc : Svc) (hfresh : sname ∉ names) :
+    IdInv prev n0 (applyService s st hint b sname svc) ∧
+    ∀ c ∈ (applyService s st hint b sname svc).calls, c.1.sname ∈ sname :: names := by
+  subst hs
+  unfold C42.applyService
+  generalize epsFor s st sname svc = eps
+  have hnew : (⟨sname, .prim⟩ : SvcKey) ∉ b.calls.map (·.1) := by
+    intro hm
+    obtain ⟨c, hc, he⟩ := List.mem_map.1 hm
+    exact hfresh (by have := hn c hc; rw [he] at this; exact this)
+  have inv1 := IdInv.applySvc wf inv hint ⟨sname, .prim⟩ svc eps (Or.inl rfl) hnew
+  obtain ⟨id, hcalls⟩ := applySvc_calls s.prevSvc hint b ⟨sname, .prim⟩ svc eps
+  generalize C42.applySvc s.prevSvc hint b ⟨sname, .prim⟩ svc eps = b1 at inv1 hcalls
+  have hn1 : ∀ c ∈ b1.calls, c.1.sname ∈ sname :: names := by
+    intro c hc; rw [hcalls] at hc
+    rcases List.mem_cons.1 hc with rfl | hc
+    · exact List.mem_cons_self ..
+    · exact List.mem_cons_of_mem _ (hn c hc)
+  obtain ⟨d1, d2, d3, d4⟩ := derivedFolds_calls s sname svc b1
+  rw [applyRest_eq]
+  split
+  · split
+    · -- NodePortRemote expansion
+      have inv2 : IdInv s.prevSvc n0 (npFold s sname svc (extFold sname svc (lbFold sname svc b1))) := inv1.of_eq d1 d2
+      have hcalls2 : (npFold s sname svc (extFold sname svc (lbFold sname svc b1))).calls = (⟨sname, .prim⟩, id, eps) :: b.calls := by
+        rw [d1, hcalls]
+      exact nprFold_inv wf hint sname svc (sname :: names) (List.mem_cons_self ..)
+        (expandNodePorts s.routes eps) (expandNodePorts_nodup _ _) _ inv2
+        (by rw [d1]; exact hn1)
+        (by
+          intro c hc hsn n he
+          rw [hcalls2] at hc
+          rcases List.mem_cons.1 hc with rfl | hc
+          · simp at he
+          · exact absurd (hsn ▸ hn c hc) hfresh)
+    · exact ⟨inv1.of_eq d1 d2, by rw [d1]; exact hn1⟩
+  · exact ⟨inv1.of_eq d3 d4, by rw [d3]; exact hn1⟩
+
+theorem buildDesired_idInv (s : Syncer) (wf : WFPrev s.prevSvc s.nextId) (st : KState) (hint : AMap SvcKey Nat)
+    (hnames : (st.svcs.map (·.1)).Nodup) : IdInv s.prevSvc s.nextId (buildDesired s st hint) := by
+  have key : ∀ (l : List (String × Svc)) (names : List String) (b : Bld), (l.map (·.1)).Nodup →
+      (∀ p ∈ l, p.1 ∉ names) → IdInv s.prevSvc s.nextId b → (∀ c ∈ b.calls, c.1.sname ∈ names) →
+      IdInv s.prevSvc s.nextId (l.foldl (fun b p => applyService s st hint b p.1 p.2) b) := by
+    intro l
+    induction l with
+    | nil => intro _ _ _ _ inv _; exact inv
+    | cons p rest ih =>
+      intro names b hnd hdis inv hn
+      simp only [List.foldl_cons]
+      simp only [List.map_cons, List.nodup_cons] at hnd
+      obtain ⟨i1, n1⟩ := IdInv.applyService s rfl wf st hint inv names hn p.1 p.2 (hdis p (List.mem_cons_self ..))
+      refine ih (p.1 :: names) _ hnd.2 ?_ i1 n1
+      intro q hq
+      simp only [List.mem_cons, not_or]
+      exact ⟨fun e => hnd.1 (List.mem_map.2 ⟨q, hq, e⟩), hdis q (List.mem_cons_of_mem _ hq)⟩
+  have inv := key st.svcs [] _ hnames (fun _ _ => by simp)
+    (⟨by simp, fun _ h => by simp at h, fun _ h => by simp at h, fun _ => by simp⟩ :
+      IdInv s.prevSvc s.nextId { des := ⟨[], []⟩, newSvc := [], newEps := [], nextId := s.nextId, fresh := [], calls := [], fwrites := [] })
+    (fun _ h => by simp at h)
+  exact inv
+
+/-! ### The bookkeeping stays well formed from sync to sync -/
+
+/-- builder facts needed to hand the bookkeeping to the next sync. -/
+structure NextInv (n0 : Nat) (b : Bld) : Prop where
+  nid : b.nextId = n0 + b.fresh.length
+  own : ∀ sk info, Owner sk → b.newSvc.get sk = some info → ∃ eps, (sk, info.id, eps) ∈ b.calls
+
+theorem NextInv.applySvcWith {n0 : Nat} {b : Bld} (inv : NextInv n0 b) (skey : SvcKey) (svc : Svc) (id : Nat) (eps : List Ep) :
+    NextInv n0 (C42.applySvcWith b skey svc id eps) := by
+  obtain ⟨hc, hf⟩ := applySvcWith_calls b skey svc id eps
+  have hnid : (C42.applySvcWith b skey svc id eps).nextId = b.nextId := by
+    unfold C42.applySvcWith updateService writeSvc; cases skey.extra <;> rfl
+  have hns : (C42.applySvcWith b skey svc id eps).newSvc = b.newSvc.set skey ⟨id, (readyOrdered eps).length, localReady eps, svc⟩ := by
+    unfold C42.applySvcWith updateService writeSvc
+    cases skey.extra <;> rfl
+  refine ⟨by rw [hnid, hf]; exact inv.nid, ?_⟩
+  intro sk info ho hg
+  rw [hns, AMap.get_set] at hg
+  rw [hc]
+  split at hg
+  · rename_i e; cases hg; subst e; exact ⟨eps, List.mem_cons_self ..⟩
+  · obtain ⟨eps', h⟩ := inv.own sk info ho hg
+    exact ⟨eps', List.mem_cons_of_mem _ h⟩
+
+theorem NextInv.applySvc {n0 : Nat} {b : Bld} (inv : NextInv n0 b) (prev : AMap SvcKey SvcInfo) (hint : AMap SvcKey Nat)
+    (skey : SvcKey) (svc : Svc) (eps : List Ep) : NextInv n0 (C42.applySvc prev hint b skey svc eps) := by
+  unfold C42.applySvc
+  split
+  · exact inv.applySvcWith _ _ _ _
+  · have inv' : NextInv n0 { b with nextId := b.nextId + 1, fresh := (hint.get skey).getD b.nextId :: b.fresh } :=
+      ⟨by simp only [List.length_cons]; have := inv.nid; omega, inv.own⟩
+    exact inv'.applySvcWith _ _ _ _
+
+theorem NextInv.applyDerived {n0 : Nat} {b : Bld} (inv : NextInv n0 b) (sname : String) (t : DType) (sinfo : Svc) :
+    NextInv n0 (C42.applyDerived b sname t sinfo) := by
+  obtain ⟨hc, hf⟩ := applyDerived_calls b sname t sinfo
+  have hnid : (C42.applyDerived b sname t sinfo).nextId = b.nextId := by
+    unfold C42.applyDerived
+    split
+    · rfl
+    · simp only []; split
+      · unfold writeLBSrc; simp only []; split <;> rfl
+      · unfold writeSvc; rfl
+  refine ⟨by rw [hnid, hf]; exact inv.nid, ?_⟩
+  intro sk info ho hg
+  rw [hc]
+  unfold C42.applyDerived at hg
+  split at hg
+  · exact inv.own sk info ho hg
+  · rename_i p hp
+    simp only [] at hg
+    have hne : sk ≠ ⟨sname, t.extra sinfo.clusterIP⟩ := by
+      intro e; subst e
+      rcases ho with h | ⟨n, h⟩ <;> cases t <;> simp [DType.extra] at h
+    split at hg
+    · rw [AMap.get_set_ne _ _ hne] at hg
+      have : (writeLBSrc b sinfo p.id p.count p.lcl (derivedFlags t sinfo)).newSvc = b.newSvc := by
+        unfold writeLBSrc; simp only []; split <;> rfl
+      rw [this] at hg; exact inv.own sk info ho hg
+    · rw [AMap.get_set_ne _ _ hne] at hg
+      have : (writeSvc b sinfo p.id p.count p.lcl (derivedFlags t sinfo)).newSvc = b.newSvc := by
+        unfold writeSvc; rfl
+      rw [this] at hg; exact inv.own sk info ho hg
+
+theorem foldl_next {α : Type} {n0 : Nat} (f : Bld → α → Bld) (hf : ∀ b a, NextInv n0 b → NextInv n0 (f b a)) (l : List α) (b : Bld)
+    (h : NextInv n0 b) : NextInv n0 (l.foldl f b) := by
+  induction l generalizing b with
+  | nil => exact h
+  | cons a l ih => exact ih _ (hf b a h)
+
+theorem NextInv.buildDesired (s : Syncer) (st : KState) (hint : AMap SvcKey Nat) :
+    NextInv s.nextId (C42.buildDesired s st hint) := by
+  unfold C42.buildDesired
+  apply foldl_next
+  · intro b p hb
+    unfold applyService
+    rw [applyRest_eq]
+    have h1 := NextInv.applySvc hb s.prevSvc hint ⟨p.1, .prim⟩ p.2 (epsFor s st p.1 p.2)
+    have h2 : NextInv s.nextId (extFold p.1 p.2 (lbFold p.1 p.2 _)) :=
+      foldl_next _ (fun b a hb => hb.applyDerived _ _ _) _ _ (foldl_next _ (fun b a hb => hb.applyDerived _ _ _) _ _ h1)
+    have h3 : NextInv s.nextId (npFold s p.1 p.2 (extFold p.1 p.2 (lbFold p.1 p.2 _))) :=
+      foldl_next _ (fun b a hb => by unfold npStep; split; exact hb; exact hb.applyDerived _ _ _) _ _ h2
+    split
+    · split
+      · exact foldl_next _ (fun b g hb => hb.applySvc _ _ _ _ _) _ _ h3
+      · exact h3
+    · exact h2
+  · exact ⟨by simp, fun _ _ _ h => by simp [AMap.get] at h⟩
+
+theorem freshGood_of_freshOk {n0 : Nat} {b : Bld} (h : freshOk n0 b.fresh = true) :
+    b.fresh.Nodup ∧ ∀ i ∈ b.fresh, n0 ≤ i ∧ i < n0 + b.fresh.length := by
+  unfold freshOk at h
+  simp only [Bool.and_eq_true, List.all_eq_true, decide_eq_true_eq] at h
+  exact ⟨h.2, fun i hi => h.1 i hi⟩
+
+theorem nodup_map_inj {α β : Type} {f : α → β} {l : List α} (h : (l.map f).Nodup) {a b : α}
+    (ha : a ∈ l) (hb : b ∈ l) (e : f a = f b) : a = b := by
+  induction l with
+  | nil => simp at ha
+  | cons x rest ih =>
+    simp only [List.map_cons, List.nodup_cons] at h
+    rcases List.mem_cons.1 ha with ha1 | ha1
+    · rcases List.mem_cons.1 hb with hb1 | hb1
+      · rw [ha1, hb1]
+      · exact absurd (by rw [← ha1, e]; exact List.mem_map_of_mem hb1) h.1
+    · rcases List.mem_cons.1 hb with hb1 | hb1
+      · exact absurd (by rw [← hb1, ← e]; exact List.mem_map_of_mem ha1) h.1
+      · exact ih h.2 ha1 hb1
+
 end CalicoVerif.C42
